@@ -24,18 +24,21 @@ TECHNIQUE = 'model checking: bounded-exhaustive enumeration of weight patterns, 
 LEVEL_TEXT = ('every zero-weight subset of 8..12-point grids x orders 1..5 x 8 knot options x 2 weight patterns is classified by an independent rank/condition test; '
               'well-posed ones are fitted for every unit vector, monomial and a generic right-hand side and compared with dense lstsq, all others are driven '
               'through fit/refit until a terminal status; every small-integer banded Cholesky factor of bandwidth 1..3 (n<=5; fixed patterns for 4..6) is '
-              'multiplied out, factorised, solved for every unit vector, and made indefinite / non-finite at every position')
+              'multiplied out, factorised, solved for every unit vector, and made indefinite / non-finite at every position; '
+              'every well-posed problem is also fitted five times on ONE object (y changed, interior x moved and moved back), and every chain that ends with status 0 is compared with dense least squares on the surviving breakpoints')
 LEVEL_NOTE = ('holds for the enumerated menus only; "every segment supported" is read as: every breakpoint interval holds a positively weighted abscissa and the weighted '
               'design matrix has full rank with condition number <= 1e4 - anything else is only held to the status-code contract; trusted: numpy.linalg.lstsq, '
               'the reference recursion in mc/props/_bsp.py; tolerance (1e-11 + 1e-13*cond^2) * scale')
-RULE = ('case = one call: (grid, order, knot option, zero-weight subset, weight pattern, right-hand side) for fits, (grid, order, knots, subset) for ill-posed chains, '
+RULE = ('case = one call: (grid, order, knot option, zero-weight subset, weight pattern, right-hand side) for fits, one five-fit sequence on one object per (grid, order, knots, subset, weights), (grid, order, knots, subset) for ill-posed chains, '
         '(bandwidth, n, factor entries, variant) for Cholesky. Non-trivial: fit cases whose expected coefficient vector is non-zero; every ill-posed chain; '
         'every matrix with a non-zero off-diagonal or a damaged entry. Distinct = distinct case tuples.')
 ASSUMPTIONS = ['float64 data on the enumerated grids (uniform and quadratically clustered), sorted abscissae, npoly=1, knots taken from the constructed object (their placement is C08)',
                'well-posed := every breakpoint interval holds >=1 positively weighted abscissa, the weighted design matrix (both knot-side conventions) has full column rank and cond <= 1e4',
                'for order 1 a data point on an interior knot may be counted to either neighbouring interval (both least-squares solutions are accepted)',
                'indefinite matrices are made so by a margin of 0.5 at one pivot (no decision at the semi-definite boundary); "signalled" := first returned item is not the integer -1',
-               'documented statuses: -2, -1, 0 or a positive integer; -1 must come with at least one newly masked breakpoint, other statuses with an unchanged mask']
+               'documented statuses: -2, -1, 0 or a positive integer; -1 must come with at least one newly masked breakpoint, other statuses with an unchanged mask',
+               'status 0 is read as "success": whenever the least-squares problem on the surviving breakpoints is unique and well conditioned (oracle: full rank, cond <= 1e4) the returned spline must be that solution - also when a segment is empty but the rank is full through its neighbours, and after breakpoints were dropped',
+               'repeated fits on one object: interior abscissae moved by +0.3/-0.2 of the local gap, same length and end points; each fit is judged against the dense solution of its own data']
 
 COND_MAX = 1e4
 
@@ -224,6 +227,94 @@ def check_linear(case):
 
 
 # ------------------------------------------------------------------ part I
+def status0_optimal(s, k, x, y, w, stage):
+    """Status 0 claims success: if the least-squares problem on the surviving (unmasked) breakpoints has a unique,
+    well-conditioned solution (full column rank, cond <= COND_MAX, by the oracle), the returned spline must be it.
+    Compared through value() at the positively weighted abscissae.  No claim otherwise."""
+    m = np.asarray(s.mask, dtype=bool)
+    ts = np.asarray(s.breakpoints, dtype=np.float64)[m]
+    if len(ts) < 2 * k or np.any(np.diff(ts) < 0):
+        return []
+    g = w > 0
+    conds, refs = [], []
+    for side in (('right', 'left') if k == 1 else ('left',)):
+        A = _bsp.design_for_fit(ts, k, np.clip(x, ts[k - 1], ts[len(ts) - k]), side)
+        c, rank, cond = _bsp.wlsq(A, y, w)
+        conds.append(cond if rank == A.shape[1] else np.inf)
+        refs.append(A.dot(c))
+    cond = max(conds)
+    if not cond <= COND_MAX:
+        return []
+    try:
+        with warnings.catch_warnings():
+            warnings.simplefilter('ignore')
+            v, _vm = s.value(x.copy())
+    except Exception as e:
+        return [('fit:status0:value-raises:%s@%s:%s' % (type(e).__name__, where_raised(e.__traceback__), stage), repr(e))]
+    v = np.asarray(v, dtype=np.float64)
+    scale = max(1.0, float(np.max(np.abs(y[g]))))
+    tol = (1e-10 + 1e-13 * cond * cond) * scale
+    if not any(np.all(np.abs(v - r)[g] <= tol) for r in refs):
+        return [('fit:status0-but-not-lstsq-on-surviving-breakpoints:' + stage,
+                 'breakpoint mask %s cond %.3g max diff %.3g' % (m.astype(int).tolist(), cond, min(float(np.max(np.abs(v - r)[g])) for r in refs)))]
+    return []
+
+
+# ------------------------------------------------------------------ part R: several fits on one object
+def moved_x(x):
+    """Same length, same end points, interior abscissae moved (still strictly inside their old gaps)."""
+    x2 = np.array(x, dtype=np.float64)
+    for i in range(1, len(x) - 1, 2):
+        x2[i] = x[i] + 0.3 * (x[i + 1] - x[i])
+    for i in range(2, len(x) - 1, 4):
+        x2[i] = x[i] - 0.2 * (x[i] - x[i - 1])
+    return x2
+
+
+@_bsp.guarded(lambda bad: (bad, 'bad:check-exception'))
+def check_refit(case):
+    """fit() repeatedly on ONE bspline object: y changed, interior x moved, and back.  Every fit that is well-posed
+    (by the oracle) must return 0 and the dense-lstsq coefficients of ITS OWN data."""
+    x1, s = make_sset(case)
+    k = case['k']
+    t = np.asarray(s.breakpoints, dtype=np.float64)
+    n = len(x1)
+    w = weights(n, case['zero'], case['wpat'])
+    x2 = moved_x(x1)
+    ya = rhs_vector(['generic'], x1, w)
+    yb = 1.0 + 0.5 * ya[::-1]
+    steps = [('first', x1, ya), ('y-changed', x1, yb), ('interior-x-moved', x2, yb), ('x-moved-back', x1, yb), ('x-moved-y-changed', x2, ya)]
+    bad = []
+    done = []
+    for name, xs, y in steps:
+        well, cond, (Ar, Al) = classify(t, k, xs, w)
+        if not well:
+            done.append(name + ':not-well-posed')
+            continue
+        try:
+            with warnings.catch_warnings():
+                warnings.simplefilter('ignore')
+                st, _yf = s.fit(xs.copy(), y.copy(), w.copy())
+        except Exception as e:
+            bad.append(('fit:same-object:%s:exception:%s@%s' % (name, type(e).__name__, where_raised(e.__traceback__)), repr(e)))
+            break
+        if _status_kind(st) != 0:
+            bad.append(('fit:same-object:%s:status!=0' % name, 'status %r' % (st,)))
+            break
+        c = np.asarray(s.coeff, dtype=np.float64)
+        errs = []
+        for A in ((Ar, Al) if k == 1 else (Ar,)):
+            ref = _bsp.wlsq(A, y, w)[0]
+            scale = max(1.0, float(np.max(np.abs(y))), float(np.max(np.abs(ref))))
+            errs.append((float(np.max(np.abs(c - ref))) if c.shape == ref.shape and np.all(np.isfinite(c)) else np.inf) / scale)
+        if not min(errs) <= (1e-11 + 1e-13 * cond * cond):
+            bad.append(('fit:same-object:%s:coeff!=lstsq' % name, 'relative diff %.3g after %s' % (min(errs), done)))
+            break
+        done.append(name)
+    nskip = sum(1 for d in done if d.endswith('not-well-posed'))
+    return bad, ('ok:same-object:%dfits' % (len(done) - nskip)) if not bad else 'bad:' + bad[0][0]
+
+
 @_bsp.guarded(lambda bad: (bad, 'bad:check-exception'))
 def check_illposed(case, pre=None):
     x, s = make_sset(case)
@@ -269,6 +360,8 @@ def check_illposed(case, pre=None):
             bad.append(('fit:ill-posed:mask-inconsistent-with-status', 'status %d, %d breakpoints newly masked' % (st, dropped)))
             break
         if st != -1:
+            if st == 0:
+                bad.extend(status0_optimal(s, k, x, y, w, 'first-fit' if len(chain) == 1 else 'after-dropping-breakpoints'))
             break
     else:
         bad.append(('fit:ill-posed:refit-chain-does-not-terminate', str(chain)))
@@ -410,7 +503,7 @@ def tasks(tier):
                     elif n == 8 or T:
                         t.append(dict(d, maxzero=n, wpats=[0, 1]))
                     else:
-                        t.append(dict(d, maxzero=2, runs=True, wpats=[0, 1]))
+                        t.append(dict(d, maxzero=2, runs=True, wpats=[0, 1] if KNOTS.index(kn) % 2 == 0 else [0]))
     for fam in ('uni', 'clu'):
         for k in range(1, 6):
             for kn in (KNOTS if T else KNOTS[1::2]):
@@ -513,6 +606,11 @@ def run_task(task):
                         csum = csum + yg[r[1]] * c
                     else:
                         got[r[0]] = c
+                case = dict(base, part='R')
+                bad, out = check_refit(case)
+                acc.case(_bsp.ckey(case), True, out, sample=None)
+                for sig, msg in bad:
+                    acc.violation(sig, case, msg)
                 if csum is not None and 'generic' in got and 'perturbed' in got:
                     case = dict(base, part='L')
                     bad, out = linear_verdict(case, pre[1], got['generic'], got['perturbed'], csum)
@@ -527,6 +625,8 @@ def replay(case):
         return check_chol(case)
     if case['part'] == 'I':
         return check_illposed(case)[0]
+    if case['part'] == 'R':
+        return check_refit(case)[0]
     if case['part'] == 'L':
         return check_linear(case)
     return check_fit(case)[0]
